@@ -100,6 +100,11 @@ impl Engine for TokioReceiver {
         true
     }
 
+    fn minimise_budget(&self) -> usize {
+        // a broken run waits out real timeouts: a couple of re-executions, not thousands
+        2
+    }
+
     fn run(&self, ch: &mut Choices, ctx: &RunCtx) -> Outcome {
         let mut out = Outcome::default();
         let n_items = 1 + ch.choose(14);
